@@ -64,7 +64,7 @@ func TestVerif_C06_Pair(t *testing.T) {
 	vfProperty(t, "C06", vfOpts{
 		Rule: "pion-pair histories: non-trivial = at least two completed rounds and a successful addition after the first",
 	}, func(v *vfT) vfFamBPCase {
-		return vfFamBGenPair(v.R, 1, 5, true, false)
+		return vfFamBGenPair(v.R, 1, 5, true, false, false)
 	}, func(v *vfT, c vfFamBPCase) {
 		var all []vfFamBFinding
 		st := vfFamBRunPair(v, c, func(ev vfFamBPEvent) {
